@@ -354,9 +354,8 @@ def s6b(ctx, rep, clause="S6"):
     P = ctx.P
     f = P.method("ModelStateTransformer", "filter_pending_evaluations")
     cfg = cfg_of(f)
-    repl = [n.id for n in cfg.nodes if n.kind == "stmt" and (
-        (isinstance(n.ast, ast.Delete) and ".pending_evaluations" in U(n.ast)) or
-        (isinstance(n.ast, ast.Assign) and any(U(t).endswith(".pending_evaluations") for t in n.ast.targets)))]
+    from .common import container_mutations
+    repl = container_mutations(ctx, f, lambda e: isinstance(e, ast.Attribute) and e.attr == "pending_evaluations")
     if not repl:
         raise AnchorError("filter_pending_evaluations: mutation of pending_evaluations not found")
     require_guard(ctx, rep, clause, f, "ModelStateTransformer.filter_pending_evaluations: the pending list is replaced | the filter removed something", repl,
@@ -544,9 +543,8 @@ def s7(ctx, rep):
     f = c.methods.get("filter_pending_evaluations")
     cfg = cfg_of(f)
     an = {n.id for n in cfg.nodes if is_none_store(f, cfg, n.id)}
-    bn = {n.id for n in cfg.nodes if n.kind == "stmt" and (
-        isinstance(n.ast, ast.Delete) or any(isinstance(x, ast.Call) and fn_name(x) in ("extend", "clear")
-                                             for x in cfg.node_walk(n.id))) and "pending_evaluations" in U(n.ast)}
+    from .common import container_mutations
+    bn = set(container_mutations(ctx, f, lambda e: isinstance(e, ast.Attribute) and e.attr == "pending_evaluations"))
     if not bn:
         raise AnchorError("filter_pending_evaluations: mutation of pending_evaluations not found")
     viol = []
